@@ -117,10 +117,12 @@ func runC13(c *rules.Ctx) {
 	// tolerance comparisons: "within tolerance" (0) is reported only when both configured tolerances were consulted and
 	// met — the relative error being the exact decimal quotient |expected−actual| / min(|expected|,|actual|)
 	type cmpSib struct{ fn, diff, minv, gt, quo, addTol, mulTol, eq string }
+	// |expected−actual| and min(|expected|,|actual|) are symmetric: either operand order is the same value
+	sym := func(f, a, b string) string { return "alt(" + f + "(" + a + "," + b + "), " + f + "(" + b + "," + a + "))" }
 	for _, v := range []cmpSib{
-		{"ErrTolerance.Compare", "sdkmath.LegacyDec.Abs(sdkmath.LegacyDec.Sub(sdkmath.Int.ToLegacyDec(expected),sdkmath.Int.ToLegacyDec(actual)))", "sdkmath.Int.ToLegacyDec(sdkmath.MinInt(sdkmath.Int.Abs(expected),sdkmath.Int.Abs(actual)))", "sdkmath.LegacyDec.GT", "sdkmath.LegacyDec.Quo", "e.AdditiveTolerance", "e.MultiplicativeTolerance", "sdkmath.Int.Equal(expected,actual)"},
-		{"ErrTolerance.CompareBigDec", "osmomath.BigDec.Abs(osmomath.BigDec.Sub(expected,actual))", "osmomath.MinBigDec(osmomath.BigDec.Abs(expected),osmomath.BigDec.Abs(actual))", "osmomath.BigDec.GT", "osmomath.BigDec.Quo", "osmomath.BigDecFromDec(e.AdditiveTolerance)", "osmomath.BigDecFromDec(e.MultiplicativeTolerance)", "osmomath.BigDec.Equal(expected,actual)"},
-		{"ErrTolerance.CompareDec", "sdkmath.LegacyDec.Abs(sdkmath.LegacyDec.Sub(expected,actual))", "sdkmath.MinDec(sdkmath.LegacyDec.Abs(expected),sdkmath.LegacyDec.Abs(actual)) | sdkmath.LegacyMinDec(sdkmath.LegacyDec.Abs(expected),sdkmath.LegacyDec.Abs(actual))", "sdkmath.LegacyDec.GT", "sdkmath.LegacyDec.Quo", "e.AdditiveTolerance", "e.MultiplicativeTolerance", "sdkmath.LegacyDec.Equal(expected,actual)"},
+		{"ErrTolerance.Compare", "sdkmath.LegacyDec.Abs(" + sym("sdkmath.LegacyDec.Sub", "sdkmath.Int.ToLegacyDec(expected)", "sdkmath.Int.ToLegacyDec(actual)") + ")", "sdkmath.Int.ToLegacyDec(" + sym("sdkmath.MinInt", "sdkmath.Int.Abs(expected)", "sdkmath.Int.Abs(actual)") + ")", "sdkmath.LegacyDec.GT", "sdkmath.LegacyDec.Quo", "e.AdditiveTolerance", "e.MultiplicativeTolerance", "sdkmath.Int.Equal(expected,actual) | sdkmath.Int.Equal(actual,expected)"},
+		{"ErrTolerance.CompareBigDec", "osmomath.BigDec.Abs(" + sym("osmomath.BigDec.Sub", "expected", "actual") + ")", sym("osmomath.MinBigDec", "osmomath.BigDec.Abs(expected)", "osmomath.BigDec.Abs(actual)"), "osmomath.BigDec.GT", "osmomath.BigDec.Quo", "osmomath.BigDecFromDec(e.AdditiveTolerance)", "osmomath.BigDecFromDec(e.MultiplicativeTolerance)", "osmomath.BigDec.Equal(expected,actual) | osmomath.BigDec.Equal(actual,expected)"},
+		{"ErrTolerance.CompareDec", "sdkmath.LegacyDec.Abs(" + sym("sdkmath.LegacyDec.Sub", "expected", "actual") + ")", sym("sdkmath.MinDec", "sdkmath.LegacyDec.Abs(expected)", "sdkmath.LegacyDec.Abs(actual)") + " | " + sym("sdkmath.LegacyMinDec", "sdkmath.LegacyDec.Abs(expected)", "sdkmath.LegacyDec.Abs(actual)"), "sdkmath.LegacyDec.GT", "sdkmath.LegacyDec.Quo", "e.AdditiveTolerance", "e.MultiplicativeTolerance", "sdkmath.LegacyDec.Equal(expected,actual) | sdkmath.LegacyDec.Equal(actual,expected)"},
 	} {
 		if c.FnOpt(M+v.fn) == nil {
 			continue
